@@ -50,6 +50,9 @@ func genC08(r *kernel.Rand) *kernel.Scenario {
 	for i := 0; i < n; i++ {
 		st := kernel.St("open", "from", r.Intn(2), "r", int64(r.Uint64()>>2), "app", app, "assets", 1+r.Weighted([]int{5, 3, 2}),
 			"agree", r.Weighted([]int{2, 1}), "challenge", cd, "pn", r.Intn(2), "an", r.Intn(2), "aux", aux, "zero", r.Intn(2))
+		if kernel.NewRand(kernel.Derive(uint64(st.Int("r")), "reused-opts")).Bool(0.25) {
+			st.A["pn"] = 2 // the library draws the proposer's share (one re-used options value, see pair.open)
+		}
 		sc.Steps = append(sc.Steps, st)
 		if r.Bool(0.3) {
 			if r.Bool(0.35) {
@@ -162,7 +165,9 @@ func execC08(t *testing.T, sc *kernel.Scenario, trace bool) *kernel.Result {
 					// if an earlier opening used the same proposer and the same two nonce shares
 					same := false
 					for _, o := range opens {
-						same = same || (o.sideProposer == side && o.pn == st.Int("pn") && o.an == st.Int("an"))
+						// (pn=2: the library draws a fresh share for every proposal, so no
+						// collision is legitimate)
+						same = same || (o.sideProposer == side && o.pn == st.Int("pn") && o.an == st.Int("an") && st.Int("pn") != 2)
 					}
 					if !same {
 						s.Fail("C08.nonce-share-ignored", "an opening with nonce shares (%d,%d) collided with a channel opened with different shares", st.Int("pn"), st.Int("an"))
